@@ -466,7 +466,9 @@ class Cluster:
         FakeSock.count = 0            # (the read sizes depend on the scenario alone: a replay sees the same ones)
         self.clock = Clock(clock0)
         self.net = Net()
-        self.devices = [(n, 'k' + n) for n in names] if len(names) > 1 else []
+        # (device keys with white space that is not the ASCII space -- ideographic space, no-break space, tab: BoboDevice refuses
+        # ' ' only -- for every instance but the first)
+        self.devices = [(n, 'k' + n if i == 0 else ('k\u3000' + n, 'k\u00a0' + n + '\tx')[i % 2]) for i, n in enumerate(names)] if len(names) > 1 else []
         self.with_action = with_action
         self.bombed = set(bomb)       # instances with a decider subscriber that fails on finished runs (class Bomb)
         self.insts: Dict[str, Inst] = {n: self._mk(n, 0, flag_reset=n not in self.quiet) for n in names}
